@@ -455,16 +455,18 @@ def rule_majorization_lengths(chk, prog):
     if not idx or not refs:
         raise AnalysisBroken("johnsons call: statement / length argument not found")
     di = [i for i, t in enumerate(tops) if t.get("k") == "DeclStmt" and any(x.get("k") == "VarDecl" and x.get("did") == refs[0].get("did") for x in walk(t))]
-    pd = {p_["name"]: p_["did"] for p_ in fn.params}
-    if not {"eLengths", "es", "useNeighbourStress"} <= set(pd):
-        raise AnalysisBroken("constructor parameters renamed: %s" % sorted(pd))
+    if len(fn.params) < 8 or "Edge" not in fn.params[1].get("t", "") and "pair" not in fn.params[1].get("t", ""):
+        raise AnalysisBroken("constructor signature changed: %s" % [p_.get("t") for p_ in fn.params])
+    # by position (rs, es, clusterHierarchy, idealLength, eLengths, doneTest, preIteration, useNeighbourStress), whatever they are called
+    pd = {"es": fn.params[1]["did"], "eLengths": fn.params[4]["did"], "useNeighbourStress": fn.params[7]["did"]}
     start = di[0] if di else 0            # (a parameter handed on directly: start at the top of the fragment that mentions it)
     if not di:
         ment = [i for i, t in enumerate(tops) if any(x.get("k") == "DeclRefExpr" and x.get("did") == refs[0].get("did") for x in walk(t))]
         start = ment[0]
-    dd = [d for d in fn.nodes() if d.get("k") == "VarDecl" and d.get("name") == "D"]
+    drefs = [x for x in walk(call_args(js[0])[1]) if x.get("k") == "DeclRefExpr"]
+    dd = [d for d in fn.nodes() if d.get("k") == "VarDecl" and drefs and d.get("did") == drefs[0].get("did")]
     if not dd:
-        raise AnalysisBroken("local D not found")
+        raise AnalysisBroken("the local distance matrix handed to johnsons was not found")
     F = Fraction
     edges = [(0, 1), (1, 2), (0, 2)]
     for stress in (False, True):
